@@ -739,6 +739,18 @@ func (e *Env) callExpr(n *ast.CallExpr) Val {
 		body := ne.evalBool(n.Args[2])
 		e.quant = true
 		return boolVal(fmt.Sprintf("(forall ((%s Int)) (! (=> (and (<= %s %s) (< %s %s)) %s) :pattern (%s)))", av, sv.S[0], av, av, add(sv.S[0], sv.S[1]), body, sel(arr, av)))
+	case "has":
+		// has(m, k): key k is present in map m
+		argc(2)
+		m := e.eval(n.Args[0])
+		mt, ok := m.T.Underlying().(*types.Map)
+		if !ok {
+			specErrf("has: not a map")
+		}
+		k := coerce(e.eval(n.Args[1]), mt.Key())
+		mi := e.u.mapInfo(m.T)
+		dom := e.arr(mi.domSite, SArr(mi.kSort, SBool))
+		return boolVal(and(not(eq(m.S[0], "0")), sel(sel(dom, m.S[0]), k.S[0])))
 	case "framed":
 		// framed(): every heap cell that existed at function entry and lies outside the function's modifies set still holds
 		// its entry value (an intermediate form of the frame obligation, useful as a stepping stone in long functions)
@@ -1134,6 +1146,23 @@ func (u *Unit) defineSpec(sf *SpecFunc) *specDef {
 			}
 			rs := leavesOf(rt, "elem")[0].Sort
 			if !env.selfRec {
+				if strings.Contains(body.S[0], "(forall ") || strings.Contains(body.S[0], "(exists ") {
+					// in the quantifier-free relaxation a quantified predicate becomes uninterpreted
+					var srt []string
+					for _, fm := range formals {
+						inner := fm[1 : len(fm)-1]
+						if strings.HasPrefix(inner, "|") {
+							j := strings.Index(inner[1:], "|")
+							srt = append(srt, strings.TrimSpace(inner[j+2:]))
+						} else {
+							j := strings.Index(inner, " ")
+							srt = append(srt, strings.TrimSpace(inner[j:]))
+						}
+					}
+					u.ctx.rawQF(sym, fmt.Sprintf("(define-fun %s (%s) %s %s)", sym, strings.Join(formals, " "), rs, body.S[0]),
+						fmt.Sprintf("(declare-fun %s (%s) %s)", sym, strings.Join(srt, " "), rs))
+					return d
+				}
 				u.ctx.raw(sym, fmt.Sprintf("(define-fun %s (%s) %s %s)", sym, strings.Join(formals, " "), rs, body.S[0]))
 				return d
 			}
